@@ -356,7 +356,7 @@ func checkC18(c C18Case, st *evid.Stats) error {
 		}
 		txt, pan := HelpAt(c.Spec, l.Path)
 		if pan != "" {
-			return failf("Help() panicked at %s: %s", l.Path, pan)
+			return failf("panic in Help() at %s: %s", l.Path, pan)
 		}
 		st.Eval()
 		kinds := map[Kind]int{}
